@@ -71,10 +71,19 @@ def build_molecule(spec, top=None, coords=None, resids=None):
 # Every case carries two bits (derived from its digest by the runner, so replay reproduces them) that change HOW the
 # harness calls the library through lib(), not WHAT it asks:
 #   kwargs     - arguments are passed by keyword (for callables whose signature allows it);
+#   np_scalars - plain int / bool / float arguments are handed over as numpy scalars (not to __getitem__);
+#   fail_first - (also: a callable object of _STATEFUL is first called with too few atoms, then for real)
 #   fail_first - a stateless entry point (function or constructor of the list below) is first called with one argument
 #                spoilt (an array of the wrong shape, a path that does not exist); whatever that call does - it
 #                normally raises - is ignored and the real call follows (error-then-continue).
-USAGE = {"kwargs": False, "fail_first": False}
+USAGE = {"kwargs": False, "fail_first": False, "np_scalars": False}
+# callable library OBJECTS on which a refused call must leave no trace (error-then-continue on a stateful object): the
+# spoilt call drops rows of the coordinate array (too few atoms) instead of a column
+_STATEFUL = {"Chi2Calculator"}
+# under np_scalars plain int / bool / float arguments are handed over as numpy.int64 / numpy.bool_ / numpy.float64 (what
+# indexing an array or a numpy reduction yields) - for every call except indexing a System / SystemGro, which state in
+# their error message that indices must be Python integers or slices
+_NP_SCALAR_SKIP = {"__getitem__"}
 _STATELESS = {"move_mol_atom", "find_atom_random_displ", "rotation_matrix", "calcule_base", "read_topology",
               "guess_residue_restrains", "guess_protein_restrains", "Chi2Calculator", "GroFile", "ItpFile", "MoleculeTop",
               "SystemGro", "System", "open_coordinate_file", "ExchangeMap"}
@@ -83,12 +92,26 @@ _STATELESS = {"move_mol_atom", "find_atom_random_displ", "rotation_matrix", "cal
 def set_usage(bits):
     USAGE["kwargs"] = bool(bits & 1)
     USAGE["fail_first"] = bool(bits & 2)
+    USAGE["np_scalars"] = bool(bits & 4)
 
 
-def _spoilt(args):
+def _np_scalar(a):
+    if type(a) is bool:
+        return np.bool_(a)
+    if type(a) is int:
+        return np.int64(a)
+    if type(a) is float:
+        return np.float64(a)
+    return a
+
+
+def _spoilt(args, rows=False):
     """args with the first spoilable argument spoilt, or None."""
     out = list(args)
     for k, a in enumerate(out):
+        if rows and isinstance(a, np.ndarray) and a.ndim == 2 and a.shape[0] >= 2:
+            out[k] = np.array(a[: a.shape[0] // 2])
+            return out
         if isinstance(a, np.ndarray) and a.ndim >= 1 and a.shape[-1] >= 2:
             out[k] = np.array(a[..., :-1])
             return out
@@ -122,6 +145,18 @@ def _styled_call(fn, args, kwargs):
             finally:
                 sys.unraisablehook = hook
             np.random.set_state(state)        # the judged call sees the random stream the case prescribes
+    if USAGE["fail_first"] and type(fn).__name__ in _STATEFUL and type(fn).__module__.startswith("gaddlemaps"):
+        bad = _spoilt(args, rows=True)
+        if bad is not None:
+            state = np.random.get_state()
+            try:
+                fn(*bad, **kwargs)
+            except Exception:      # noqa: BLE001
+                pass
+            np.random.set_state(state)
+    if USAGE["np_scalars"] and name not in _NP_SCALAR_SKIP:
+        args = tuple(_np_scalar(a) for a in args)
+        kwargs = {k: _np_scalar(v) for k, v in kwargs.items()}
     if USAGE["kwargs"] and args:
         try:
             sig = inspect.signature(fn)
@@ -218,6 +253,9 @@ def positions(mol):
 import contextlib  # noqa: E402
 
 
+ACCEPTED = [0]          # accepted steps of the search(es) run inside the most recent step_cap() block
+
+
 @contextlib.contextmanager
 def step_cap(limit=None):
     """Bounds the number of Monte-Carlo steps of the searches started inside the block.  The library's loop
@@ -228,13 +266,18 @@ def step_cap(limit=None):
     from gaddlemaps import _backend
     limit = limit or int(os.environ.get("VERIF_STEP_CAP", "200000"))
     orig = _backend.accept_metropolis
-    n = [0]
+    n = [0, 0]          # steps judged, steps accepted
+    ACCEPTED[0] = 0
 
     def counted(*a, **k):
         n[0] += 1
         if n[0] > limit:
             raise Discard("step-cap")
-        return orig(*a, **k)
+        r = orig(*a, **k)
+        if r:
+            n[1] += 1
+            ACCEPTED[0] += 1
+        return r
     _backend.accept_metropolis = counted
     try:
         yield n
